@@ -143,7 +143,7 @@ def _native(env, model):
     from sigtools import _signatures
     import inspect
     conc = Concretizer(model)
-    l, rp = [_build(conc, i) for i in env['infos']]
+    l, rp = [list(conc.build_sig(i).parameters.values())[0] for i in env['infos']]
     try:
         res = _signatures._Merger._concile_meta(None, l, rp)
     except Exception as e:
